@@ -9,25 +9,22 @@ namespace Aiocoap.Uri
 
 /-- What the theorems assume about `str(ipaddress.IPv6Address(x))` (Python's `ipaddress` is not
 modelled): the result is a fixed point, contains a colon, is lower-case up to the zone, starts
-neither with `v` nor `[`; apart from hex digits, `:` and `.` it only contains characters of the
-input (the zone identifier is copied); and only texts with a colon are addresses.  The harness
-checks these on every address it sees. -/
+neither with `v` nor `[`; what precedes the zone identifier are hex digits, `:` and `.` (in the
+result and in the text it was made from); the zone identifier is that of the input, copied; and only texts with a colon are addresses.  The harness
+checks these on every address it sees.  (Nothing is assumed about what a zone identifier may
+contain — `ipaddress` takes any text there.) -/
 structure IpLaws (ip : IpOracle) : Prop where
   canon : ∀ x y, ip.norm6 x = some y →
     ip.norm6 y = some y ∧ 58 ∈ y ∧ lowerUntilPct y = y ∧ y.head? ≠ some 118 ∧ y.head? ≠ some 91
-  chars : ∀ x y, ip.norm6 x = some y → ∀ c ∈ y, c ∈ x ∨ isHex c = true ∨ c = 58 ∨ c = 46
+  addr : ∀ x y, ip.norm6 x = some y → ∀ c ∈ before 37 y, isHex c = true ∨ c = 58 ∨ c = 46
+  addrIn : ∀ x y, ip.norm6 x = some y → ∀ c ∈ before 37 x, isHex c = true ∨ c = 58 ∨ c = 46
+  zone : ∀ x y, ip.norm6 x = some y → after 37 y = after 37 x
   colon : ∀ x y, ip.norm6 x = some y → 58 ∈ x
-
-/-- an IP literal in brackets is the whole host: a `[` in the authority is its first character
-and the only one (no junk or empty user info in front of it) -/
-def BracketLeads (u : Bytes) : Prop :=
-  91 ∈ (splitAuthority u).2.1 → ∃ r, (splitAuthority u).2.1 = 91 :: r ∧ 91 ∉ r
 
 /-- the Uri-Host value does not spell an IP address (if it does, the host moves from Uri-Host to
 the remote on the way back: the same destination, but not the same options) -/
 def NotIpText (ip : IpOracle) (h : Bytes) : Prop :=
-  ip4Looking h = false ∧
-    ((h.contains 58 || h.contains 91) && (ip.norm6 (unbracket h)).isSome) = false
+  ip4Looking h = false ∧ passesAsAddress ip h = false
 
 /-- the conclusion: `u'` is the normal form of the accepted text whose options are `o` -/
 structure NormalForm (ip : IpOracle) (o : Opts) (u' : Bytes) (o' : Opts) : Prop where
@@ -41,6 +38,8 @@ structure NormalForm (ip : IpOracle) (o : Opts) (u' : Bytes) (o' : Opts) : Prop 
   port : portOf o'.hostinfo = portOf o.hostinfo
   literal : o.uriHost = none → o' = o
   fixed : getRequestUri ip o' = some u'
+  /-- the normal form consists of the characters RFC 3986 allows in a URI -/
+  uriText : ∀ c ∈ u', isUriChar c = true
 
 -- the literal case -----------------------------------------------------------------------
 
@@ -58,7 +57,8 @@ theorem normalForm_literal {ip : IpOracle} {o : Opts} (hs : o.scheme ∈ coapSch
                path := o.path, query := o.query } : Opts) = o := by
     cases o; simp_all
   rw [ho] at hset
-  exact ⟨_, hget, hset, rfl, rfl, rfl, rfl, rfl, rfl, fun _ => rfl, hget⟩
+  exact ⟨_, hget, hset, rfl, rfl, rfl, rfl, rfl, rfl, fun _ => rfl, hget,
+    render_uriChars hs hn.uriChars hp hq⟩
 
 -- no user info in front of a leading bracket ---------------------------------------------
 
@@ -98,10 +98,177 @@ theorem ip4Strict_chars {x : Bytes} (h : ip4Strict x = true) :
     simp only [allDigits, List.all_eq_true] at this
     exact this c hcp
 
+/-- what the bracket test of `set_request_uri` leaves of an authority with a `[` in it: the `[`
+leads and is the only one up to the `]`, the literal's zone identifier is unreserved -/
+theorem literalOk_inv {n : Bytes} (h : literalOk n = true) (h91 : 91 ∈ n) :
+    ∃ r, n = 91 :: r ∧ 91 ∉ before 93 r ∧ zoneOk (before 93 r) = true ∧
+      (after 93 r = [] ∨ (after 93 r).head? = some 58) := by
+  unfold literalOk at h
+  rw [contains_true_of_mem h91] at h
+  simp only [Bool.true_or, ↓reduceIte, Bool.and_eq_true, Bool.not_eq_true', beq_iff_eq,
+    Bool.or_eq_true, List.head?_eq_none_iff] at h
+  obtain ⟨⟨⟨hhead, hno⟩, hport⟩, hz⟩ := h
+  cases n with
+  | nil => cases h91
+  | cons x r =>
+    by_cases hx : x = 93
+    · subst hx
+      simp [before, takeUntil] at hhead
+    · have hb : before 93 (x :: r) = x :: before 93 r := by
+        simp [before, takeUntil, hx]
+      rw [hb] at hhead hno hz
+      simp only [List.head?_cons, Option.some.injEq] at hhead
+      subst hhead
+      have ha : after 93 (91 :: r) = after 93 r := by simp [after, dropUntil]
+      rw [ha] at hport
+      refine ⟨r, rfl, ?_, ?_, hport⟩
+      · simpa using hno
+      · simpa [zoneOk, after, dropUntil] using hz
+
+theorem rawHostname_bracket_head {r : Bytes} (h64 : 64 ∉ 91 :: r) :
+    rawHostname (91 :: r) = before 93 r := by
+  unfold rawHostname
+  simp only [show hostinfoOf (91 :: r) = 91 :: r from afterLast_of_not_mem h64]
+  have : (91 :: r).contains 91 = true := by simp
+  rw [this]
+  simp only [↓reduceIte]
+  rw [after_head]
+
+theorem after_lowerUntilPct (s : Bytes) : after 37 (lowerUntilPct s) = after 37 s := by
+  induction s with
+  | nil => rfl
+  | cons x r ih =>
+    simp only [lowerUntilPct]
+    split
+    · rfl
+    · rename_i hx
+      have hl : lowerChar x ≠ 37 := by
+        unfold lowerChar
+        split
+        · rename_i hu
+          simp only [isUpper, Bool.and_eq_true, decide_eq_true_eq] at hu
+          omega
+        · exact hx
+      have e1 : after 37 (lowerChar x :: lowerUntilPct r) = after 37 (lowerUntilPct r) := by
+        simp [after, dropUntil, hl]
+      have e2 : after 37 (x :: r) = after 37 r := by
+        simp [after, dropUntil, hx]
+      rw [e1, e2, ih]
+
+theorem lowerUntilPct_digits {s : Bytes} (h : ∀ d ∈ lowerUntilPct s, isDigit d = true ∨ d = 46) :
+    ∀ c ∈ s, isDigit c = true ∨ c = 46 := by
+  induction s with
+  | nil => intro c hc; cases hc
+  | cons x r ih =>
+    simp only [lowerUntilPct] at h
+    split at h
+    · rename_i hx
+      subst hx
+      have := h 37 (by simp)
+      simp [isDigit] at this
+    · have hx := h (lowerChar x) (by simp)
+      have hr := ih (fun d hd => h d (by simp [hd]))
+      intro c hc
+      simp only [List.mem_cons] at hc
+      rcases hc with rfl | hc
+      · unfold lowerChar at hx
+        split at hx
+        · rename_i hu
+          simp only [isUpper, Bool.and_eq_true, decide_eq_true_eq] at hu
+          simp only [isDigit, Bool.and_eq_true, decide_eq_true_eq] at hx
+          omega
+        · exact hx
+      · exact hr c hc
+
+/-- an authority without bracket and user info whose host is a dotted quad and whose port, if
+any, is a number consists of digits, dots and a colon -/
+theorem plain_netloc_uriChars {n hn : Bytes} {port : Option Nat} (h91 : 91 ∉ n)
+    (hui : hasUserinfo n = false) (hhn : hostnameOf n = some hn) (h4 : ip4Looking hn = true)
+    (hport : portOf n = some port) : ∀ c ∈ n, isUriChar c = true := by
+  have h64 : 64 ∉ n := by
+    intro hm
+    unfold hasUserinfo at hui
+    rw [contains_true_of_mem hm] at hui
+    cases hui
+  have hhi : hostinfoOf n = n := afterLast_of_not_mem h64
+  have hraw : rawHostname n = before 58 n := by
+    unfold rawHostname
+    simp only [hhi, contains_false_of_not_mem h91, Bool.false_eq_true, ↓reduceIte]
+  have hrp : rawPort n = after 58 n := by
+    unfold rawPort
+    simp only [hhi, contains_false_of_not_mem h91, Bool.false_eq_true, ↓reduceIte]
+  obtain ⟨_, hhneq⟩ := hostnameOf_inv hhn
+  have hhost : ∀ c ∈ before 58 n, isDigit c = true ∨ c = 46 := by
+    apply lowerUntilPct_digits
+    intro d hd
+    rw [← hraw, ← hhneq] at hd
+    exact ip4Looking_chars h4 d hd
+  have hpd : ∀ c ∈ after 58 n, isDigit c = true := by
+    intro c hc
+    unfold portOf at hport
+    simp only [hrp] at hport
+    split at hport
+    · rename_i he; rw [he] at hc; cases hc
+    · split at hport
+      · rename_i hd
+        simp only [Bool.and_eq_true, allDigits, List.all_eq_true] at hd
+        exact hd.1 c hc
+      · cases hport
+  intro c hc
+  have hcase : c ∈ before 58 n ∨ c = 58 ∨ c ∈ after 58 n := by
+    by_cases h58 : 58 ∈ n
+    · have e := before_after_eq h58
+      rw [e] at hc
+      simpa using hc
+    · left; rw [before_of_not_mem h58]; exact hc
+  rcases hcase with h | rfl | h
+  · rcases hhost c h with h' | rfl
+    · exact uriChar_of_digit h'
+    · decide
+  · decide
+  · exact uriChar_of_digit (hpd c h)
+
+/-- shape of an accepted authority that contains a bracket -/
+theorem literal_shape {ip : IpOracle} {p : Parsed} {o : Opts} (hb : bracketsOk ip p.netloc = true)
+    (A : AcceptedFacts ip p o) (hbr : 91 ∈ p.netloc ∨ 93 ∈ p.netloc) :
+    ∃ t rest, p.netloc = [91] ++ t ++ [93] ++ rest ∧ 91 ∉ t ∧ 93 ∉ t ∧
+      (rest = [] ∨ rest.head? = some 58) ∧ zoneOk t = true ∧
+      o.uriHost = none ∧ hostnameOf p.netloc = some (lowerUntilPct t) := by
+  -- the URI splitter wants both brackets or none
+  have hboth : 91 ∈ p.netloc ∧ 93 ∈ p.netloc := by
+    unfold bracketsOk at hb
+    by_cases h1 : 91 ∈ p.netloc <;> by_cases h3 : 93 ∈ p.netloc
+    · exact ⟨h1, h3⟩
+    · simp at hb; exact absurd (hb.1.mp h1) h3
+    · simp at hb; exact absurd (hb.1.mpr h3) h1
+    · rcases hbr with h | h
+      · exact absurd h h1
+      · exact absurd h h3
+  obtain ⟨r, hnr, h91r, hz, hrest⟩ := literalOk_inv A.literal hboth.1
+  have h93r : 93 ∈ r := by
+    have := hboth.2
+    rw [hnr] at this
+    simpa using this
+  have hsplit := before_after_eq h93r
+  have hui := A.userinfo
+  rw [hnr] at hui
+  have h64 : 64 ∉ 91 :: r := no_at_of_bracket_head hui
+  obtain ⟨hn, hhn, hcase⟩ := A.host
+  obtain ⟨_, hhneq⟩ := hostnameOf_inv hhn
+  refine ⟨before 93 r, after 93 r, ?_, h91r, not_mem_before 93 r, hrest, hz, ?_, ?_⟩
+  · rw [hnr]
+    simp only [List.cons_append, List.nil_append, List.append_assoc, List.cons.injEq, true_and]
+    exact hsplit
+  · have hhead : (p.netloc.head? == some 91) = true := by rw [hnr]; simp
+    rcases hcase with ⟨_, h⟩ | ⟨h, _⟩
+    · exact h
+    · rw [hhead] at h; simp at h
+  · rw [hhn, hhneq, hnr, rawHostname_bracket_head h64]
+
 -- the main assembly ------------------------------------------------------------------------
 
 theorem normalForm_of_accepted {ip : IpOracle} (laws : IpLaws ip) {u : Bytes} (hu : u.wf)
-    {o : Opts} (hok : setRequestUri ip u = .ok o) (hbr : BracketLeads u)
+    {o : Opts} (hok : setRequestUri ip u = .ok o)
     (hname : ∀ h, o.uriHost = some h → NotIpText ip h) :
     ∃ u' o', NormalForm ip o u' o' := by
   obtain ⟨p, hsplit, A⟩ := setRequestUri_ok_inv hok
@@ -124,10 +291,8 @@ theorem normalForm_of_accepted {ip : IpOracle} (laws : IpLaws ip) {u : Bytes} (h
     rw [hhneq]
     exact lowerUntilPct_wf (fun c hc => hnwf c (mem_rawHostname hc))
   by_cases h91 : 91 ∈ p.netloc
-  · -- bracketed literal
-    rw [S.netloc_eq] at h91
-    obtain ⟨r, hnr, h91r⟩ := hbr h91
-    rw [← S.netloc_eq] at hnr
+  · -- bracketed literal: since the bracket test of `set_request_uri` it is the whole host
+    obtain ⟨r, hnr, h91r, hzraw, _⟩ := literalOk_inv A.literal h91
     have hhead : (p.netloc.head? == some 91) = true := by rw [hnr]; simp
     have huh : o.uriHost = none := by
       rcases hcase with ⟨_, h⟩ | ⟨h, _⟩
@@ -136,34 +301,9 @@ theorem normalForm_of_accepted {ip : IpOracle} (laws : IpLaws ip) {u : Bytes} (h
     have hui := A.userinfo
     rw [hnr] at hui
     have h64 : 64 ∉ p.netloc := by rw [hnr]; exact no_at_of_bracket_head hui
-    have hhi : hostinfoOf p.netloc = p.netloc := afterLast_of_not_mem h64
     have hraw : rawHostname p.netloc = before 93 r := by
-      unfold rawHostname
-      simp only [hhi]
-      rw [hnr]
-      have : (91 :: r).contains 91 = true := by simp
-      rw [this]
-      simp only [↓reduceIte]
-      rw [after_head]
-    -- the raw host text is clean
-    have hrawclean : ∀ c ∈ rawHostname p.netloc,
-        c ≠ 91 ∧ c ≠ 93 ∧ c ≠ 64 ∧ isNetlocDelim c = false ∧ isUnsafeWs c = false := by
-      intro c hc
-      have hcn : c ∈ p.netloc := mem_rawHostname hc
-      rw [hraw] at hc
-      have hcr := mem_before hc
-      refine ⟨fun e => h91r (e ▸ hcr.1), hcr.2, fun e => h64 (e ▸ hcn), (S.netloc c hcn).2.1,
-        (S.netloc c hcn).2.2⟩
-    have hhnclean : ∀ c ∈ hn,
-        c ≠ 91 ∧ c ≠ 93 ∧ c ≠ 64 ∧ isNetlocDelim c = false ∧ isUnsafeWs c = false := by
-      intro c hc
-      rw [hhneq] at hc
-      obtain ⟨c0, hc0, hh⟩ := mem_lowerUntilPct hc
-      rcases hh with rfl | ⟨hup, rfl⟩
-      · exact hrawclean c hc0
-      · simp only [isUpper, Bool.and_eq_true, decide_eq_true_eq] at hup
-        simp only [isNetlocDelim, isUnsafeWs, Bool.or_eq_false_iff, beq_eq_false_iff_ne, ne_eq]
-        omega
+      rw [hnr] at h64 ⊢
+      exact rawHostname_bracket_head h64
     -- what the remote was built from
     have hund := A.hostinfo
     unfold undecidedHostinfo at hund
@@ -212,17 +352,13 @@ theorem normalForm_of_accepted {ip : IpOracle} (laws : IpLaws ip) {u : Bytes} (h
       rw [hnot4] at hnorm
       simp only [Bool.false_eq_true, ↓reduceIte] at hnorm
       obtain ⟨hfix, hcol, hlow, hnv, hnb⟩ := laws.canon hn y hnorm
-      have hyclean : ∀ c ∈ y,
-          c ≠ 91 ∧ c ≠ 93 ∧ c ≠ 64 ∧ isNetlocDelim c = false ∧ isUnsafeWs c = false := by
-        intro c hc
-        rcases laws.chars hn y hnorm c hc with h | h | h | h
-        · exact hhnclean c h
-        · simp only [isHex, isDigit, Bool.or_eq_true, Bool.and_eq_true, decide_eq_true_eq] at h
-          simp only [isNetlocDelim, isUnsafeWs, Bool.or_eq_false_iff, beq_eq_false_iff_ne, ne_eq]
-          omega
-        · subst h; decide
-        · subst h; decide
-      have hy : Ip6Text ip y := ⟨hfix, hcol, hyclean, hlow, hnv⟩
+      -- the zone identifier of the remote is the one the bracket test has seen
+      have hzy : zoneOk y = true := by
+        unfold zoneOk
+        rw [laws.zone hn y hnorm, hhneq, after_lowerUntilPct, hraw]
+        exact hzraw
+      have hy : Ip6Text ip y := ⟨hfix, hcol, laws.addr hn y hnorm, hzy, hlow, hnv⟩
+      have hyclean := hy.clean
       have h91y : 91 ∉ y := fun hm => (hyclean 91 hm).1 rfl
       have hhi' : o.hostinfo = plainJoin ([91] ++ y ++ [93]) port := by
         rw [← hund, hostportjoin_bracket port hcol h91y]
@@ -243,9 +379,11 @@ theorem normalForm_of_accepted {ip : IpOracle} (laws : IpLaws ip) {u : Bytes} (h
         rw [hhi]
         exact
           { clean := fun c hc => (S.netloc c hc).2
+            uriChars := plain_netloc_uriChars h91 A.userinfo hhn (by simpa [hhead] using hlit) hport
             brackets := S.brackets
             hostname := ⟨hn, hhn, Or.inl ⟨hlit, rfl⟩⟩
             userinfo := A.userinfo
+            literal := A.literal
             port := ⟨port, hport⟩
             undecided := undecided_plain ip h91 }
       obtain ⟨u', hnf⟩ := normalForm_literal hsch huh A.uriPort hfacts hp hq
@@ -293,7 +431,8 @@ theorem normalForm_of_accepted {ip : IpOracle} (laws : IpLaws ip) {u : Bytes} (h
             = .ok (r.toOpts ip) := by
         have := setRequestUri_render (ip := ip) hsch (toOpts_facts hr) hp hq
         rw [toOpts_eq ip r]; exact this
-      refine ⟨_, r.toOpts ip, hget, hset, ?_, ?_, ?_, ?_, ?_, ?_, ?_, hget'⟩
+      refine ⟨_, r.toOpts ip, hget, hset, ?_, ?_, ?_, ?_, ?_, ?_, ?_, hget',
+        render_uriChars hsch (toOpts_facts hr).uriChars hp hq⟩
       · rfl
       · rw [huh]; rfl
       · rw [A.uriPort]; rfl
